@@ -320,7 +320,7 @@ def run_program(fst, pi, src, tier, res, neighbourhood):
                     continue
                 res.nontriv(dtext, mode)
                 res.outcomes['fragment-ok'] += 1
-        if neighbourhood and (hasattr(node, 'lineno') or isinstance(node, (ast.withitem, ast.comprehension))) and not is_stmtlike and '\n' not in text:
+        if neighbourhood and (hasattr(node, 'lineno') or isinstance(node, (ast.withitem, ast.comprehension))) and not is_stmtlike:
             token_neighbourhood(fst, text, node, parent, modes[0], cidp + ps, rep, res, tier)
     list_fragments(fst, S, tree, src, cidp, rep, res)
 
@@ -441,11 +441,18 @@ def embed_valid(text, mode):
         return 'unsupported'
     try:
         S = X.Src(text)
-    except SyntaxError:
+        toks_ = S.toks
+    except SyntaxError:  # a fragment that spans lines need not tokenize on its own (indentation): tokenize it inside parentheses
+        try:
+            S = X.Src('(\n' + text + '\n)')
+        except SyntaxError:
+            return None
+        toks_ = [(a - 2, b - 2, c, d) for a, b, c, d in S.toks[1:-1]]
+        if len(S.toks) < 2 or S.toks[0][2] != '(' or S.toks[-1][2] != ')' or S.toks[-1][0] != len(text) + 3:
+            return None
+    if not toks_:
         return None
-    if not S.toks:
-        return None
-    first, last = S.toks[0][0], S.toks[-1][1]
+    first, last = toks_[0][0], toks_[-1][1]
     for t, get, dl in tmpl:
         full = t.format(text)
         try:
@@ -528,13 +535,19 @@ def token_neighbourhood(fst, text, node, parent, mode, cidp, rep, res, tier):
     if not (1 <= len(S.toks) <= maxtok):
         return
     variants = set()
-    for i, t in enumerate(S.toks):
+    multiline = '\n' in text  # fragments that span lines: only what can stand in front of / behind the whole fragment
+    for i, t in enumerate(() if multiline else S.toks):
         variants.add(text[:t[0]] + text[t[1]:])                 # delete
         variants.add(text[:t[1]] + ' ' + t[2] + text[t[1]:])    # duplicate
         for r in REPL:
             variants.add(text[:t[0]] + r + text[t[1]:])         # replace
             variants.add(text[:t[1]] + ' ' + r + text[t[1]:])   # insert after
-    for i, t in enumerate(S.toks):  # wrapper escapes after every token (and in place of every separator-like token)
+    if multiline:
+        for r in (',', ' ,', '\n,', '\n ,', ' # c\n,', ';', ' if x', ' as x', '=1', ': x'):
+            variants.add(text + r)
+        for r in (',', ', \n', '*', '(', 'x = '):
+            variants.add(r + text)
+    for i, t in enumerate(() if multiline else S.toks):  # wrapper escapes after every token (and in place of every separator-like token)
         for r in ESCAPES:
             variants.add(text[:t[1]] + r + text[t[1]:])
             if t[2] in (',', '=', ':', '.', 'as', 'in', '|'):
